@@ -338,3 +338,105 @@ def run_prop_kind_case(ki, as_list, kind):
         return got == value
     finally:
         restore(saved)
+
+
+# ---------------------------------------------------------------- types declared with extension_name: own defining extension next to other extensions
+def extension_name_types(sco: bool, other: int, own_given: bool, route: int) -> bool:
+    """
+    pre: 0 <= other <= 3 and 0 <= route <= 2
+    post: _
+    """
+    sco, other, own_given, route = bool(sco) and True or False, pick(other, 4), bool(own_given) and True or False, pick(route, 3)
+    with Native():
+        ok = run_extension_name_case(sco, other, own_given, route)
+    V.reached()
+    return ok
+
+
+def run_extension_name_case(sco, other, own_given, route):
+    """a custom object / observable declared with extension_name carries its own defining extension; whatever other extensions it is given
+    (registered property extension, unregistered one, both, none) are kept, through the constructor, parse of a dictionary and parse of text"""
+    saved = snapshot()
+    try:
+        own = "extension-definition--0a0a0a0a-f010-4473-83ec-1edf84858f4c"
+        reg = "extension-definition--0b0b0b0b-f010-4473-83ec-1edf84858f4c"
+        unreg = "extension-definition--0c0c0c0c-f010-4473-83ec-1edf84858f4c"
+
+        @stix2.v21.CustomExtension(reg, [("k", P.StringProperty())])
+        class RegExt(object):
+            extension_type = "property-extension"
+        if sco:
+            @stix2.v21.CustomObservable("x-own-sco", [("name", P.StringProperty(required=True))], ["name"], extension_name=own)
+            class T(object):
+                pass
+        else:
+            @stix2.v21.CustomObject("x-own-sdo", [("name", P.StringProperty(required=True))], extension_name=own)
+            class T(object):
+                pass
+        exts = {}
+        if other in (1, 3):
+            exts[reg] = {"extension_type": "property-extension", "k": "v"}
+        if other in (2, 3):
+            exts[unreg] = {"extension_type": "property-extension", "q": 1}
+        if own_given:
+            exts[own] = {"extension_type": "new-sco" if sco else "new-sdo"}
+        kw = {"name": "n"}
+        if exts:
+            kw["extensions"] = exts
+        if route == 0:
+            o = T(**kw)
+        else:
+            d = dict(kw, type="x-own-sco" if sco else "x-own-sdo", spec_version="2.1")
+            d["id"] = "%s--311b2d2d-f010-4473-83ec-1edf84858f4c" % d["type"]
+            if not sco:
+                d.update(created="2020-01-01T00:00:00.000Z", modified="2020-01-01T00:00:00.000Z")
+            o = stix2.parse(d if route == 1 else json.dumps(d), allow_custom=False)
+        if type(o) is not T:
+            return False
+        j = json.loads(o.serialize())
+        want_keys = set(exts) | {own}
+        if set(j.get("extensions", {})) != want_keys:
+            return False
+        for k, v in exts.items():
+            if k != own and j["extensions"][k] != v:
+                return False
+        back = stix2.parse(o.serialize(), allow_custom=False)
+        return type(back) is T and back == o and back.serialize() == o.serialize()
+    finally:
+        restore(saved)
+
+
+# ---------------------------------------------------------------- a registration is version-scoped for references too
+def version_scoped_references(reg21: bool, ref21: bool, allow: bool, sight: bool) -> bool:
+    """
+    post: _
+    """
+    reg21, ref21, allow, sight = (bool(x) and True or False for x in (reg21, ref21, allow, sight))
+    with Native():
+        ok = run_scoped_ref_case(reg21, ref21, allow, sight)
+    V.reached()
+    return ok
+
+
+def run_scoped_ref_case(reg21, ref21, allow, sight):
+    """a custom object type registered for ONE spec version (name without x- prefix) is a known type for references from objects of that
+    version only; from the other version a reference to it is custom content (refused in strict mode, flagged otherwise)"""
+    saved = snapshot()
+    try:
+        regmod, refmod = (stix2.v21 if reg21 else stix2.v20), (stix2.v21 if ref21 else stix2.v20)
+
+        @regmod.CustomObject("acme-widget", [("prop_one", P.StringProperty())])
+        class W(object):
+            pass
+        target = "acme-widget--311b2d2d-f010-4473-83ec-1edf84858f4c"
+        known = reg21 == ref21
+        try:
+            if sight:
+                o = refmod.Sighting(sighting_of_ref=target, allow_custom=allow)
+            else:
+                o = refmod.Relationship("malware--311b2d2d-f010-4473-83ec-1edf84858f4c", "uses", target, allow_custom=allow)
+        except (STIXError, ValueError):
+            return not known and not allow
+        return (known or allow) and o.has_custom == (not known)
+    finally:
+        restore(saved)
